@@ -31,6 +31,10 @@ TEXTS = {
     "open_comment_after": A + " /* never closed",
     "open_comment_inside": 'def exp { splitters: uid /* never closed  return "O1" weighted 1 }',
     "named_map": 'def map { splitters: uid return "M1" weighted 1, "M2" weighted 1 }',  # an experiment named like a helper of the generated code
+    # experiments named like the evaluator's own attributes (an instance attribute created under the experiment's name would shadow them)
+    "named_recompile": 'def recompile { splitters: uid return "R1" weighted 1, "R2" weighted 1 }',
+    "named_run_experiment": 'def run_experiment { splitters: uid return "X1" weighted 1, "X2" weighted 2 }',
+    "named__checksum": 'def _checksum { splitters: uid return "K1" weighted 2, "K2" weighted 1 }',
     "bad_empty": "",
     "bad_two_defs": A + "\n" + 'def other { splitters: org return "X" weighted 1 }',
 }
@@ -87,6 +91,134 @@ def _long_work(units):
         return True
 
     for period, rounds, nev in units:
+        if rounds == "stack":
+            # fault injection by stack exhaustion: the compile of a VALID text is attempted with exactly r frames left, for every
+            # r = 1..R (it fails at a different depth of the pipeline each time, or succeeds); whatever happened, the evaluator then
+            # behaves like the text it last accepted, and the same text compiled again with a normal stack is accepted (by this
+            # evaluator, by another one and by the constructor) - a transient failure must leave nothing behind
+            import sys
+
+            R, which = period, nev
+            ev, ev2 = impl.ExperimentEvaluator(long_text(5000)), impl.ExperimentEvaluator(long_text(5001))
+            cur = 5000
+
+            def depth():
+                f, n = sys._getframe(), 0
+                while f is not None:
+                    f, n = f.f_back, n + 1
+                return n
+
+            def attempt(fn, r):
+                old = sys.getrecursionlimit()
+                try:
+                    sys.setrecursionlimit(depth() + r)
+                    try:
+                        with quiet():
+                            fn()
+                        return "ok"
+                    except RecursionError:
+                        return "recursion"
+                    except Exception as e:  # noqa
+                        return type(e).__name__
+                finally:
+                    sys.setrecursionlimit(old)
+
+            ok = True
+            seen = set()
+            for r in range(3, R + 1):
+                nxt = 6000 + r
+                txt = long_text(nxt) if which == 0 else f'def exp {{ salt: "L{nxt}" splitters: uid if f == 1 and not (f > 2 or f in (3, 4)) {{ return "a{nxt}" weighted 1, "b{nxt}" weighted 2 }} else {{ return "c{nxt}" weighted 1 }} }}'
+                what = attempt((lambda: ev.recompile(txt)) if r % 2 else (lambda: impl.ExperimentEvaluator(txt)), r)
+                seen.add(what)
+                out["cov"]["transitions"] = out["cov"].get("transitions", 0) + 1
+                if what == "ok" and r % 2:
+                    cur = txt
+                if what not in ("ok", "recursion"):
+                    pass  # (an error of another class with an exhausted stack is still a refusal)
+                hist = (R, f"compile with {r} frames left -> {what}", which)
+                if not (expect_ok(ev, cur, hist, text=cur) if isinstance(cur, str) else expect_ok(ev, cur, hist)):
+                    ok = False
+                    break
+                # now with a normal stack: this evaluator, another evaluator, the constructor
+                for label, fn in (("recompile", lambda: ev.recompile(txt)), ("recompile of another evaluator", lambda: ev2.recompile(txt)), ("construction", lambda: impl.ExperimentEvaluator(txt))):
+                    try:
+                        with quiet():
+                            rr = fn()
+                    except Exception as e:  # noqa
+                        out["cov"]["violating_cases"] = out["cov"].get("violating_cases", 0) + 1
+                        out["viol"].append({"kind": "life:long", "period": R, "steps": "stack", "evaluators": which, "text_index": nxt,
+                                            "why": f"a valid text whose compile was first attempted with {r} stack frames left ({what}) is refused afterwards with a normal stack: {label} raised {type(e).__name__}: {str(e)[:100]}"})  # fmt: skip
+                        ok = False
+                        break
+                    out["cov"]["transitions"] = out["cov"].get("transitions", 0) + 1
+                    target = rr if label == "construction" else (ev if label == "recompile" else ev2)
+                    if not expect_ok(target, nxt, (R, f"compile with {r} frames left -> {what}, then {label}", which), text=txt):
+                        ok = False
+                        break
+                cur = txt
+                if not ok:
+                    break
+            out["outcomes"] += [f"stack:{which}:{w}" for w in sorted(seen)]
+            continue
+        if rounds == "resource":
+            # the SAME text gives the SAME outcome (accepted / refused) whatever else was compiled in between in this process:
+            # very large programs (refused or not - that is measured, not assumed) around other very large programs
+            sizes = period
+
+            def ladder(n, deep_not=0):
+                last = ("not " * deep_not) + "f == -1"
+                body = " else ".join([f'if f == {j} {{ return "r{j}" weighted 1 }}' for j in range(n)] + [f'if {last} {{ return "z" weighted 1 }}'])
+                return f'def exp {{ splitters: uid {body} }}'
+
+            texts = [ladder(n, dn) for n, dn in sizes]
+
+            def outcome(t):
+                b = impl.build(t)
+                return "ok" if b[0] == "ok" else "refused"
+
+            first = [outcome(t) for t in texts]
+            for i, t in enumerate(texts):
+                for j, other in enumerate(texts):
+                    outcome(other)
+                    again = outcome(t)
+                    out["cov"]["transitions"] = out["cov"].get("transitions", 0) + 2
+                    if again != first[i]:
+                        out["cov"]["violating_cases"] = out["cov"].get("violating_cases", 0) + 1
+                        out["viol"].append({"kind": "life:long", "period": [list(x) for x in sizes], "steps": "resource", "evaluators": 1, "text_index": i,
+                                            "why": f"an else-if ladder of {sizes[i][0]} rungs (+{sizes[i][1]} nested nots) was {first[i]} at first and is {again} after a ladder of {sizes[j][0]} rungs was compiled in the same process"})  # fmt: skip
+                        break
+            out["outcomes"].append("resource:" + ",".join(first))
+            continue
+        if rounds == "fleet":
+            # many evaluators ALIVE at the same time (a per-evaluator resource such as an open file), with few file descriptors
+            import resource
+
+            n = period
+            soft, hard = resource.getrlimit(resource.RLIMIT_NOFILE)
+            used = len(os.listdir("/proc/self/fd")) if os.path.isdir("/proc/self/fd") else 64
+            try:
+                resource.setrlimit(resource.RLIMIT_NOFILE, (used + 40, hard))
+                fleet = []
+                for i in range(n):
+                    try:
+                        with quiet():
+                            fleet.append(impl.ExperimentEvaluator(long_text(7000 + i)))
+                    except Exception as e:  # noqa
+                        out["cov"]["violating_cases"] = out["cov"].get("violating_cases", 0) + 1
+                        out["viol"].append({"kind": "life:long", "period": n, "steps": "fleet", "evaluators": n, "text_index": 7000 + i,
+                                            "why": f"with {i} other evaluators alive (and {used + 40} file descriptors allowed) a valid text cannot be compiled: {type(e).__name__}: {str(e)[:100]}"})  # fmt: skip
+                        break
+                    out["cov"]["transitions"] = out["cov"].get("transitions", 0) + 1
+                else:
+                    for i in list(range(0, n, 7)) + [n - 1]:
+                        with quiet():
+                            fleet[i].recompile(long_text(8000 + i))
+                        if not expect_ok(fleet[i], 8000 + i, (n, "fleet", n)) or not expect_ok(fleet[(i + 1) % n], 7000 + (i + 1) % n if (i + 1) % n not in set(list(range(0, n, 7)) + [n - 1]) or (i + 1) % n > i else 8000 + (i + 1) % n, (n, "fleet", n)):
+                            break
+            finally:
+                resource.setrlimit(resource.RLIMIT_NOFILE, (soft, hard))
+            out["outcomes"].append(f"fleet:{n}")
+            continue
         if rounds == "ladder":
             # n consecutive REJECTED recompiles (late errors: all nodes were already built) for every n = 1..K, each followed
             # by a valid recompile, a fresh construction and a recompile of a second evaluator: state that accumulates over
@@ -319,6 +451,9 @@ def long_histories(res, tier):
     periods = [1, 2, 3, 5, 8, 9, 15, 16, 17, 31, 32, 33, 63, 64, 65, 100, 127, 128, 129, 130, 257, 300] + ([255, 256, 257, 300, 511, 512, 513] if tier == "thorough" else [])
     units = [(p, 3, n) for p in periods for n in (1, 2)]
     units += [(n, "bulk", 1) for n in ([10, 300, 5000, 10000, 70000, -300, -70000] + ([140000, 300000, -140000] if tier == "thorough" else []))]
+    units += [(150 if tier == "quick" else 400, "stack", which) for which in (0, 1)]
+    units += [(((900, 150), (995, 0), (1500, 0)) if tier == "quick" else ((600, 0), (900, 150), (985, 0), (995, 0), (1200, 0), (1500, 0), (3000, 0)), "resource", 1)]
+    units += [(n, "fleet", 1) for n in ((300,) if tier == "quick" else (300, 2000))]
     K = 32 if tier == "quick" else 96
     units += [((b, which), "ladder", K if b < 40 else K // 2) for b in (1, 3, 12, 40) for which in range(5)]
     for w in pmap(_long_work, units, chunk=1, inline_ok=False):
@@ -328,7 +463,7 @@ def long_histories(res, tier):
 
 
 def replay_long(data):
-    r = _long_work([(tuple(data["period"]) if isinstance(data["period"], list) else data["period"], data["steps"] if data.get("steps") in ("bulk", "ladder") else 3, data["evaluators"])])
+    r = _long_work([(tuple(data["period"]) if isinstance(data["period"], list) else data["period"], data["steps"] if data.get("steps") in ("bulk", "ladder", "stack", "resource", "fleet") else 3, data["evaluators"])])
     return bool(r["viol"]), (r["viol"][0]["why"] if r["viol"] else "long history behaves like the model")
 
 
